@@ -387,6 +387,10 @@ pub fn c04(out: &mut Out, rng: &mut Rng, tier: &Tier) {
     c04_pair::<Kmer16, Kmer5>(out, seed, tier, &mut c, nb, &mut st);
     c04_pair::<K31, Kmer2>(out, seed, tier, &mut c, nb, &mut st);
     c04_pair::<K31, Kmer6>(out, seed, tier, &mut c, nb, &mut st);
+    // minimizers wider than 8 bases (ranks beyond 16 bits), default permutation
+    c04_pair::<Kmer16, Kmer10>(out, seed, tier, &mut c, nb, &mut st);
+    c04_pair::<K31, Kmer10>(out, seed, tier, &mut c, nb, &mut st);
+    c04_pair::<K31, Kmer12>(out, seed, tier, &mut c, nb, &mut st);
     let s: Vec<String> = st.shards.iter().map(|(p, c)| format!("{}:{}", p, c)).collect();
     out.comment(&format!(
         "stat cases={} with_cross_shard_merge={} shards_produced_histogram (shards:cases) {}",
